@@ -31,6 +31,7 @@
  */
 #include "archdep.h"
 
+#include <assert.h>
 #include <complex.h>
 #include <errno.h>
 #include <math.h>
@@ -113,7 +114,8 @@ static const char *cat_name(int c)
  */
 static int wb_mode;		/* 0: real weights; 1: all ones; 2: w[i] = i + 2 (index markers) */
 static int wb_trace;		/* print the per-iteration trajectory of solve_auto */
-static int wb_dump;		/* dump coefficient matrices handed to the solvers */
+static int wb_dump;		/* bit 0: dump coefficient matrices handed to the solvers;
+				   bit 1: dump every input of _vnacal_new_solve_calc_pvalue */
 /* taps, called from harness/selfcal_wb_simple.c and harness/selfcal_wb_auto.c */
 double *wb_calc_weights(vnacal_new_solve_state_t *vnssp);
 int wb_qr(complex double *a, complex double *q, complex double *r, int m, int n);
@@ -167,7 +169,7 @@ double *wb_calc_weights(vnacal_new_solve_state_t *vnssp)
 int wb_qr(complex double *a, complex double *q, complex double *r, int m, int n)
 {
     printf("wb qr %d %d\n", m, n);		/* one per entry of solve_auto's loop body */
-    if (wb_dump)
+    if (wb_dump & 1)
 	wb_matrix("A", a, m, n);
     return _vnacommon_qr(a, q, r, m, n);
 }
@@ -175,7 +177,7 @@ int wb_qr(complex double *a, complex double *q, complex double *r, int m, int n)
 int wb_qrsolve(complex double *x, complex double *a, complex double *b, int m, int n, int o)
 {
     printf("wb qrsolve %d %d\n", m, n);
-    if (wb_dump) {
+    if (wb_dump & 1) {
 	wb_matrix("A", a, m, n);
 	wb_matrix("b", b, m, o);
     }
@@ -187,7 +189,7 @@ int wb_qrsolve(complex double *x, complex double *a, complex double *b, int m, i
 int wb_qrsolve_trl(complex double *x, complex double *a, complex double *b, int m, int n, int o)
 {
     printf("wb trlsolve %d %d\n", m, n);
-    if (wb_dump) {
+    if (wb_dump & 1) {
 	wb_matrix("A", a, m, n);
 	wb_matrix("b", b, m, o);
     }
@@ -198,7 +200,7 @@ double complex wb_mldivide(complex double *x, complex double *a, const double co
 	int m, int n)
 {
     printf("wb mldivide %d %d\n", m, n);
-    if (wb_dump) {
+    if (wb_dump & 1) {
 	wb_matrix("A", a, m, m);
 	wb_matrix("b", b, m, n);
     }
@@ -208,8 +210,10 @@ double complex wb_mldivide(complex double *x, complex double *a, const double co
 /* exp() as called by chisq_pvalue (harness/selfcal_wb_pvalue.c): the argument is -chisq / 2 */
 double wb_exp(double x)
 {
-    printf("wb exp %.17g\n", x);
-    return exp(x);
+    double y = exp(x);
+
+    printf("wb exp %.17g %.17g\n", x, y);	/* argument, value */
+    return y;
 }
 
 /*
@@ -226,6 +230,90 @@ double wb_exp(double x)
  */
 double wb_real_calc_pvalue(vnacal_new_solve_state_t *vnssp, const double complex *x_vector,
 	int x_length);
+
+static void wb_opt(bool have, double complex v)
+{
+    if (have)
+	printf(" %.17g %.17g", creal(v), cimag(v));
+    else
+	printf(" -");
+}
+
+/*
+ * wb_pvalue_inputs ("wb <mode> <trace> 2"): everything _vnacal_new_solve_calc_pvalue reads, for the
+ * exact-rational model coq/SelfCal/PvalueModel.v.  The equations are walked with the library's own
+ * iterator (vs_start_system / vs_next_equation / vs_next_term); the FACTORS of every term are printed
+ * separately (sign, m, s, v, index of the unknown), not their product.
+ *   wb pvnoise <sigma_nf> <sigma_tr>            the element of vn_m_error_vector of this frequency
+ *   wb pvx <n> <re im>*n                        x_vector
+ *   wb pveq <sindex> <own m: re im> { <neg 0|1> <m: re im | -> <s: re im | -> <v: re im | -> <xindex | -> }*
+ *   wb pvleak <row> <col> <count> <sum re im> <sumsq> <nstd> { <given><connected> <m re im> }*nstd
+ */
+static void wb_pvalue_inputs(vnacal_new_solve_state_t *vnssp, const double complex *x_vector,
+	int x_length)
+{
+    vnacal_new_t *vnp = vnssp->vnss_vnp;
+    const vnacal_layout_t *vlp = &vnp->vn_layout;
+    const int m_rows = VL_M_ROWS(vlp), m_columns = VL_M_COLUMNS(vlp);
+    const int s_columns = VL_S_COLUMNS(vlp);
+    const int findex = vnssp->vnss_findex;
+
+    printf("wb pvnoise %.17g %.17g\n", vnp->vn_m_error_vector[findex].vnme_sigma_nf,
+	    vnp->vn_m_error_vector[findex].vnme_sigma_tr);
+    printf("wb pvx %d", x_length);
+    for (int i = 0; i < x_length; ++i)
+	printf(" %.17g %.17g", creal(x_vector[i]), cimag(x_vector[i]));
+    printf("\n");
+    for (int sindex = 0; sindex < vnp->vn_systems; ++sindex) {
+	vs_start_system(vnssp, sindex);
+	while (vs_next_equation(vnssp)) {
+	    vnacal_new_equation_t *vnep = vnssp->vnss_vnep;
+	    vnacal_new_msv_matrices_t *vnmmp = &vnssp->vnss_msv_matrices[vnep->vne_vnmp->vnm_index];
+	    double complex own = vnmmp->vnmm_m_matrix[vnep->vne_row * m_columns + vnep->vne_column];
+
+	    printf("wb pveq %d %.17g %.17g", sindex, creal(own), cimag(own));
+	    while (vs_next_term(vnssp)) {
+		int xindex = vs_get_xindex(vnssp);
+
+		printf(" %d", vs_get_negative(vnssp) ? 1 : 0);
+		wb_opt(vs_have_m(vnssp), vs_have_m(vnssp) ? vs_get_m(vnssp) : 0.0);
+		wb_opt(vs_have_s(vnssp), vs_have_s(vnssp) ? vs_get_s(vnssp) : 0.0);
+		wb_opt(vs_have_v(vnssp), vs_have_v(vnssp) ? vs_get_v(vnssp) : 0.0);
+		if (xindex >= 0)
+		    printf(" %d", xindex);
+		else
+		    printf(" -");
+	    }
+	    printf("\n");
+	}
+    }
+    if (vnssp->vnss_leakage_matrix != NULL) {
+	for (int row = 0; row < m_rows; ++row) {
+	    for (int column = 0; column < m_columns; ++column) {
+		const int m_cell = row * m_columns + column;
+		const int s_cell = row * s_columns + column;
+		const vnacal_new_leakage_term_t *ltp = vnssp->vnss_leakage_matrix[m_cell];
+
+		if (row == column)
+		    continue;
+		printf("wb pvleak %d %d %d %.17g %.17g %.17g %d", row, column, ltp->vnlt_count,
+			creal(ltp->vnlt_sum), cimag(ltp->vnlt_sum), ltp->vnlt_sumsq,
+			vnp->vn_measurement_count);
+		for (vnacal_new_measurement_t *vnmp = vnp->vn_measurement_list; vnmp != NULL;
+			vnmp = vnmp->vnm_next) {
+		    bool given = vnmp->vnm_m_matrix[m_cell] != NULL;
+		    double complex m = given ? vnmp->vnm_m_matrix[m_cell][findex] : 0.0;
+
+		    printf(" %d%d %.17g %.17g", given ? 1 : 0,
+			    vnmp->vnm_connectivity_matrix != NULL &&
+			    vnmp->vnm_connectivity_matrix[s_cell] ? 1 : 0, creal(m), cimag(m));
+		}
+		printf("\n");
+	    }
+	}
+    }
+}
+
 double _vnacal_new_solve_calc_pvalue(vnacal_new_solve_state_t *vnssp,
 	const double complex *x_vector, int x_length)
 {
@@ -260,6 +348,8 @@ double _vnacal_new_solve_calc_pvalue(vnacal_new_solve_state_t *vnssp,
 	    }
 	}
     }
+    if (wb_dump & 2)
+	wb_pvalue_inputs(vnssp, x_vector, x_length);
     p = wb_real_calc_pvalue(vnssp, x_vector, x_length);
     printf("wb pvout %.17g\n", p);
     return p;
